@@ -141,7 +141,7 @@ def run_part(ctx):
 
     # 3. the real code
     out = ctx.sub("traces_c03p")
-    nrand = 300 if q else 5000
+    nrand = 300 if q else 10000
     nchunks = 8 if q else 96
     lib.run_driver(drv, ["-bounds", bpath, "-out", out, "-chunks", nchunks, "-rand", nrand, "-seed", ctx.seed,
                          "-par", 4 if q else 8, "-block", 2000 if q else 10000], timeout=1800)
